@@ -67,12 +67,10 @@ KF_INT = "KF-generic-int-range"
 KF_FLOORDIV = "KF-floordiv-bound"
 KF_BITWISE = "KF-bitwise-int-range"
 KF_SHAPE = "KF-generic-unary-shape"
-KF_ASTYPE = "KF-astype-bool-substring"
 KF_MOD_UNIT = "KF-mod-unit-divisor"
-PENDING = (KF_ASTYPE, KF_MOD_UNIT)      # reported to the integrator; dedicated streams become active once listed open
+PENDING = ()      # findings reported to the integrator but not yet listed (dedicated stream not gated until listed)
 DIVISOR_OPS = ("floordiv", "mod", "truediv", "safediv")
 KF_WHAT = {
-    KF_ASTYPE: "astype: `dtype in (\"bool\")` is a substring test; 'b' (int8) and 'l' (int64) are typed Bint[2]",
     KF_MOD_UNIT: "Bint[n] % Bint[1] declares Bint[0]; numpy integer modulo by zero returns 0 (RuntimeWarning only)",
     KF_INT: "generic same-dtype rules keep Bint[n] although values leave [0,n) or are not integers",
     KF_FLOORDIV: "Bint[n]//Bint[m] declared Bint[(n-1)//(m-1)+1], too small unless the divisor is maximal",
@@ -538,8 +536,6 @@ class Run:
         bints = [d for d in doms if d.dtype != "real"]
         if name in SHAPE_CHANGING:
             return KF_SHAPE
-        if name == "astype" and op.defaults.get("dtype") in ("b", "l", "bo", "o", "oo", "ol", "boo", "ool", ""):
-            return KF_ASTYPE
         if rule == "_find_domain_mod" and len(bints) == 2 and doms[1].dtype == 1:
             return KF_MOD_UNIT
         if rule == U_GENERIC and bints and name not in INT_SOUND_UNARY:
@@ -1096,7 +1092,7 @@ def streams(run, tier, full_box=False):
 
 
 def report_known(ctx, run):
-    for fid in (KF_INT, KF_FLOORDIV, KF_BITWISE, KF_SHAPE, KF_ASTYPE, KF_MOD_UNIT):
+    for fid in (KF_INT, KF_FLOORDIV, KF_BITWISE, KF_SHAPE, KF_MOD_UNIT):
         hit = run.known_hits.get(fid) or run.known_hits.get(fid + "/term")
         ctx.extra.setdefault("known_regions", {})[fid] = dict(cases=run.known_seen.get(fid, 0), witness=hit,
                                                              listed=ctx.is_open(fid))
@@ -1178,8 +1174,9 @@ def correspond(ctx):
             verdict="finding " + KF_MOD_UNIT, why="Tensor % Tensor returns 0 (numpy RuntimeWarning, no exception) in an empty "
             "type; Number % Number raises ZeroDivisionError", listed=ctx.is_open(KF_MOD_UNIT)),
         "astype: `dtype in (\"bool\")` substring test": dict(
-            verdict="finding " + KF_ASTYPE, why="'b' and 'l' are valid numpy dtype codes (int8/int64) typed Bint[2]; the other "
-            "substrings ('', 'o', 'bo', …) raise TypeError in numpy (declines)", listed=ctx.is_open(KF_ASTYPE)),
+            verdict="finding, FIXED in /repo (== \"bool\")", why="'b' and 'l' are valid numpy dtype codes (int8/int64) and were "
+            "typed Bint[2] (ops.astype(Tensor(3.0), 'b') : Bint[2], data 3); now NotImplementedError.  The dtype strings "
+            "'b', 'l', 'bo', '' are enumerated in the clean astype stream, so a revert is caught by the range gate"),
         "KF-reduce-andor-logical-on-ints": dict(
             verdict="not a C06 violation", why="Reduce(and_/or_) over Bint[n] data returns bool data (np.all/np.any): values "
             "0/1 lie inside [0,n) and the shape is the declared one — a wrong VALUE (C01), the declaration is honoured; "
